@@ -172,8 +172,16 @@ def run(chk, repo, tier):
                 okc = okc and _selection_of_self(wa[2][0], 'wave') and _selection_of_self(va[2][0], 'value')
             elif kept:
                 # the same written as a keep mask: x[wave >= min_wave], x[wave <= max_wave]
+                negated = set()
                 for a in nf.value_atoms(wa[2]):
-                    if is_app(a, ('lt', 'le')):
+                    # ~(w < lo) keeps what `lo <= w` keeps (the wavelengths are validated numbers)
+                    if is_app(a, ('invert', 'logical_not', 'not')) and isinstance(a[2][0], Poly) and a[2][0].single_atom() is not None \
+                            and is_app(a[2][0].single_atom(), ('lt', 'le')):
+                        inner = a[2][0].single_atom()
+                        negated.add(inner)
+                        keep_seen.add(('app', 'le' if inner[1] == 'lt' else 'lt', (inner[2][1], inner[2][0])))
+                for a in nf.value_atoms(wa[2]):
+                    if is_app(a, ('lt', 'le')) and a not in negated:
                         keep_seen.add(a)
                 okc = okc and _selection_of_self(Poly.atom(wa[1]), 'wave') and _selection_of_self(Poly.atom(va[1]), 'value')
         if len(evs) % 2:
